@@ -1044,6 +1044,24 @@ static int32 tls13WriteCertificate(ssl_t *ssl, sslBuf_t *out)
                     }
                 }
 #  endif
+#  if defined(USE_RSA) && defined(USE_PKCS1_PSS)
+                if (c->sigAlgorithm == OID_RSASSA_PSS)
+                {
+                    if (tls13IsRsaPssSigAlg(ssl->sec.keySelect.peerCertSigAlgs[i]))
+                    {
+                        break;
+                    }
+                }
+#  endif
+#  ifdef USE_ED25519
+                if (c->sigAlgorithm == OID_ED25519_KEY_ALG)
+                {
+                    if (ssl->sec.keySelect.peerCertSigAlgs[i] == sigalg_ed25519)
+                    {
+                        break;
+                    }
+                }
+#  endif
             }
         }
         if (c == NULL || i == ssl->sec.keySelect.peerCertSigAlgsLen)
